@@ -1,4 +1,10 @@
 package main
 
-// extraFacts: constants for further models are added here as they come online.
-func extraFacts(fc *facts) {}
+// extraFactFns: per-property constant extractors register themselves here from facts_cxx.go files (init()).
+var extraFactFns []func(fc *facts)
+
+func extraFacts(fc *facts) {
+	for _, f := range extraFactFns {
+		f(fc)
+	}
+}
